@@ -13,7 +13,8 @@ DECIDED = ("for every arm of fake! as rustc parsed it at check time: R8.1 one we
            "`assign` => runs on the admitted path only and before the result is produced; `returns` => the value expression is evaluated "
            "inside the fake, on every admitted call, with the fake's own parameters, and its result is what is returned; unit arms return (); "
            "`times` => C06 R6.1-R6.4; R8.4 the generated fn's safety/ABI and the recorded fn-pointer type equal the kind declared by the "
-           "arm's literal tokens; R8.5 the verifier kind is WithCount iff the arm has `times`")
+           "arm's literal tokens; R8.5 the verifier kind is WithCount iff the arm has `times`; "
+           "R8.6 the budget counts this installation's calls only: the counter is reset on the way into the installation (C07 R7.1)")
 NOT_DECIDED = "what the user-supplied expressions themselves do (they are opaque markers here)"
 
 KIND = {"safe": ("Rust", False), "unsafe": ("Rust", True), "extern-C": ("C", True), "extern-system": ("system", True)}
@@ -152,6 +153,10 @@ def run_one(ck, tm, tier, ws):
                 from ..interp import UNIT
                 ck.ob("R8.3", "%s/unit-result" % key, tm.target, v.ret is UNIT and not rts, "unit arm returns %r" % (v.ret,))
     ck.floor("R8.1", "fake-instantiations-accepted", n_ok, 52 if tier == "quick" else 104)
+    # R8.6 `times` is a budget of *this* installation in every arm: the library resets the shared per-expansion counter on the way
+    # into the installation (C07 R7.1 repeated)
+    from .c07 import install_resets_counter
+    install_resets_counter(ck, tm, "R8.6")
 
 
 def hmod_arms(hm):
